@@ -145,6 +145,7 @@ TOKEN_RX = re.compile(r"""
   | (?P<str>"(?:\\.|[^"\\])*")
   | (?P<num>(?:0x[0-9a-fA-F_]+|0b[01_]+|0o[0-7_]+|[0-9][0-9_]*)(?:(?:u8|u16|u32|u64|usize|i8|i16|i32|i64|isize))?)
   | (?P<id>[A-Za-z_][A-Za-z0-9_]*)
+  | (?P<life>'[A-Za-z_][A-Za-z0-9_]*)
   | (?P<op><<=|>>=|\.\.=|\.\.|::|->|=>|==|!=|<=|>=|&&|\|\||\+=|-=|\*=|/=|%=|&=|\|=|\^=|<<|>>|[-+*/%&|^!<>=.,;:(){}\[\]\#?@])
 """, re.X)
 
@@ -1584,8 +1585,7 @@ class FnTranslator:
         self.helpers.append("\n".join(lines))
         init = tuple_val([v.lean for v in state] + (["[]"] if it_mut else []))
         out_pat = tuple_pat([v.lean for v in state] + ([seq_var.lean] if it_mut else []))
-        code.bind(out_pat, ("call", "%s.foldlM (%s%s%s) %s" % (atom(lst), name, self.abs_args(),
-                                                              "".join(" " + v.lean for v in caps), init)))
+        code.bind(out_pat, ("call", "%s.foldlM %s %s" % (atom(lst), atom(name + self.abs_args() + "".join(" " + v.lean for v in caps)), init)))
 
     # ---------------------------------------------------------------- the function
     def translate(self, toks):
@@ -1787,6 +1787,24 @@ unit(name="SrcKmpLps", props="property C08", file="src/pattern_matching/kmp.rs",
      functions=[dict(name="lps", lean="lps", header="fn lps(pattern: &[u8]) -> Lps",
                      params=[("pattern", "&[u8]")], ret="Lps", locals={"q": "usize"},
                      fuel=["q + 1"], theorem="RbV.Thm.GenSrcKmpLps.lps_eq_model")])
+
+
+unit(name="SrcShiftAndMasks", props="property C08", file="src/pattern_matching/shift_and.rs",
+     functions=[dict(name="masks", lean="masks",
+                     header="pub fn masks<C, P>(pattern: P) -> ([u64; 256], u64) where C: Borrow<u8>, P: IntoIterator<Item = C>,",
+                     # `P: IntoIterator<Item = C>, C: Borrow<u8>`: the items are read through `*c.borrow()` only, a `u8` each
+                     params=[("pattern", "&[u8]")], ret="([u64; 256], u64)",
+                     locals={"masks": "[u64; 256]", "accept": "u64"},
+                     theorem="RbV.Thm.GenSrcShiftAndMasks.masks_eq_model")])
+
+
+unit(name="SrcHorspoolNew", props="property C08", file="src/pattern_matching/horspool.rs",
+     functions=[dict(name="Horspool::new", lean="new", header="pub fn new(pattern: TextSlice<'a>) -> Self",
+                     aliases={"TextSlice": "&[u8]"},
+                     params=[("pattern", "&[u8]")], ret="(usize, Vec<usize>, &[u8])",
+                     struct_fields={"Horspool": ["m", "shift", "pattern"]},
+                     locals={"shift": "Vec<usize>"},
+                     theorem="RbV.Thm.GenSrcHorspoolNew.new_eq_model")])
 
 
 def main():
